@@ -1008,6 +1008,28 @@ fn frames(m: &mut Machine, n: usize, heartbeat: bool) {
     }
 }
 
+/// reads and writes of every device port, data ports first (nothing is selected / initialised by
+/// the probe before it is used)
+fn probe_devices(m: &mut Machine) {
+    let rf = m.regs();
+    let mut q = rf.clone();
+    q.iff1 = false;
+    q.iff2 = false;
+    q.halted = false;
+    q.sp = 0xBF00;
+    m.set_regs(&q);
+    for p in [0xFFFDu16, 0xBFFD, 0x00FE, 0xFEFE, 0x001F, 0xFADF, 0xFBDF, 0xFFDF, 0x7FFD, 0x00FF] {
+        let _ = m.inp(p);
+    }
+    m.out(0xBFFD, 0x5A);
+    let _ = m.inp(0xFFFD);
+    m.out(0x00FE, 0x12);
+    m.out(0xFFFD, 0x1E);
+    m.out(0xBFFD, 0xFF);
+    let _ = m.inp(0xFFFD);
+    m.set_regs(&rf);
+}
+
 /// ROM LD-BYTES request: CALL 0x0556 with A = flag, carry = LOAD, IX = destination, DE = length
 fn fast_load_request(m: &mut Machine, r: &mut Rng) {
     if m.cfg.is128 {
@@ -1090,6 +1112,12 @@ fn run_sub(case: &Case, is128: bool, ak: AK, variant: u64) -> Outcome {
     // ---- afterwards the emulator must still run
     let post = catch(|| {
         let mut r = Rng::new(variant ^ 0x55);
+        // whatever program runs next may touch any device before re-initialising it (data ports
+        // before their select ports): do that on its behalf, straight after the load or after the
+        // frames
+        if case.fmt != F::Vtx && variant % 2 == 0 {
+            probe_devices(&mut m);
+        }
         match case.fmt {
             F::Vtx => {}
             F::Tap => {
@@ -1110,6 +1138,10 @@ fn run_sub(case: &Case, is128: bool, ak: AK, variant: u64) -> Outcome {
                 }
             }
             _ => frames(&mut m, if matches!(ak, AK::Fault(..)) { 1 } else { 3 }, false),
+        }
+        if case.fmt != F::Vtx && variant % 2 == 1 {
+            probe_devices(&mut m);
+            frames(&mut m, 1, false);
         }
     });
     ARMED.store(false, Ordering::Relaxed);
